@@ -18,11 +18,11 @@ REACH = ["rate", "_calculate_rankings", "_unwind", "_sorter", "_unary_minus"]
 
 def floors(tier):
     q = tier == "quick"
-    return {"encoding-equal": 50000 if q else 600000, "float-tie": 8000 if q else 100000}
+    return {"encoding-equal": 50000 if q else 3600000, "float-tie": 8000 if q else 600000}
 
 
 def generate(ctx):
-    n = ctx.budget(15000, 150000)
+    n = ctx.budget(15000, 900000)
     for _ in range(n):
         case, meta = gen.gen_case(ctx.rng, percall=False)
         lv = meta["levels"]
